@@ -178,7 +178,7 @@ def cnv_major_minor(attribute, arg, element):
         raise ValueError( "'%s' is not either 'minor' or 'major'" % arg)
     return str(arg)
 
-pattern_namespacedToken = re.compile(r'[0-9a-zA-Z_]+:[0-9a-zA-Z._\-]+\Z')
+pattern_namespacedToken = re.compile(r'[a-zA-Z_][0-9a-zA-Z_.\-]*:[a-zA-Z_][0-9a-zA-Z._\-]*\Z')
 
 def cnv_namespacedToken(attribute, arg, element):
     global pattern_namespacedToken
